@@ -22,6 +22,7 @@ fn main() {
     report::LAST_PANIC_LOCATION.with(|c| *c.borrow_mut() = loc);
   }));
   match prop.as_str() {
+    "C25" => props::c25::run(&ctx, &mut rep),
     "C26" => props::c26::run(&ctx, &mut rep),
     "C29" | "C30" => props::c29::run(&ctx, &mut rep, &prop),
     "C32" => props::c32::run(&ctx, &mut rep),
